@@ -5,6 +5,9 @@
 package main
 
 import (
+	"strconv"
+	"runtime/debug"
+	"io"
 	"bufio"
 	"encoding/json"
 	"flag"
@@ -163,7 +166,7 @@ func cmdRun(args []string) {
 				ops: bufio.NewWriterSize(of, 1<<20), exp: bufio.NewWriterSize(ef, 1<<20), Stats: map[string]int{}, distinct: map[uint64]struct{}{}}
 			ctxs[i] = c
 			preamble(c)
-			g(c)
+			runGuarded(c, g)
 			c.ops.Flush()
 			c.exp.Flush()
 			of.Close()
@@ -199,6 +202,60 @@ func cmdRun(args []string) {
 	sum := map[string]interface{}{"ops": total, "distribution": stats, "samples": samples, "shards": *shards, "distinct_nontrivial": len(all)}
 	b, _ := json.MarshalIndent(sum, "", " ")
 	os.WriteFile(filepath.Join(*out, *prop+".summary.json"), b, 0o644)
+}
+
+// runGuarded runs a generator; if the REAL code panics while the generator itself is building inputs (outside any op, so
+// outside the per-op recover), the crash is recorded as an op line of its own: the model side does not know `gencrash`
+// (it answers bad-op), so the check reports it as a disagreement whose replay re-runs this shard of the generator.
+func runGuarded(c *Ctx, g func(*Ctx)) {
+	defer func() {
+		if r := recover(); r != nil {
+			line := fmt.Sprintf("gencrash %s %d %d %s %d", c.Prop, c.Seed, c.Shard, c.Tier, c.NShard)
+			out := "crash: " + crashSite(r)
+			c.ops.WriteString(line + "\n")
+			c.exp.WriteString(out + "\n")
+			c.N++
+			c.Stats["generator-crashed-in-real-code"]++
+		}
+	}()
+	g(c)
+}
+
+// crashSite: the panic value and the innermost frame inside the repository proper (not the harness)
+func crashSite(r interface{}) string {
+	msg := strings.ReplaceAll(fmt.Sprint(r), "\n", " ")
+	site := ""
+	for _, l := range strings.Split(string(debug.Stack()), "\n") {
+		l = strings.TrimSpace(l)
+		if strings.HasPrefix(l, "github.com/nelhage/taktician/") && !strings.Contains(l, "/verifh.") && !strings.Contains(l, "Verif") {
+			site = l
+			if k := strings.Index(site, "("); k > 0 {
+				site = site[:k]
+			}
+			break
+		}
+	}
+	return clip(msg, 160) + " in " + site
+}
+
+func init() {
+	opTable["gencrash"] = func(s *Session, a []string) string {
+		g, ok := genTable[a[0]]
+		if !ok || len(a) < 5 {
+			return "bad-op"
+		}
+		seed, _ := strconv.ParseUint(a[1], 10, 64)
+		shard, nshard := atoi(a[2]), atoi(a[4])
+		c := &Ctx{Prop: a[0], Tier: a[3], Seed: seed, Shard: shard, NShard: nshard,
+			R: NewRNG(seed*1000003 + uint64(shard)*7919 + hashStr(a[0])), S: NewSession(),
+			ops: bufio.NewWriterSize(io.Discard, 1<<16), exp: bufio.NewWriterSize(io.Discard, 1<<16), Stats: map[string]int{}, distinct: map[uint64]struct{}{}}
+		preamble(c)
+		runGuarded(c, g)
+		if c.Stats["generator-crashed-in-real-code"] > 0 {
+			return "crash"
+		}
+		return "no-crash"
+	}
 }
 
 func hashStr(s string) uint64 {
